@@ -346,6 +346,14 @@ def gen_membership_op(rng, st):
             c, t = rng.choice(sorted(st.members))  # re-add
             if not (st.crates[c]["alive"] and st.tracks[t]):
                 c, t = rng.choice(lc), rng.choice(lt)
+        elif rng.random() < 0.3 and st.members:
+            # the same track filed under a crate and under a crate above or below it (a genre and its sub-genre)
+            c0, t0 = rng.choice(sorted(st.members))
+            if st.crates[c0]["alive"] and st.tracks[t0]:
+                rel = st.descendants(c0) + ([st.crates[c0]["parent"]] if st.crates[c0]["parent"] is not None else [])
+                rel = [x for x in rel if st.crates[x]["alive"]]
+                if rel:
+                    c, t = rng.choice(rel), t0
         st.members.add((c, t))
         # both overloads: add_track(track) and add_track(int64_t id)
         return {"op": "add_track" if rng.random() < 0.7 else "add_track_via_id", "c": c, "t": t}, {"kind": "add_track", "c": c, "t": t}
@@ -353,6 +361,10 @@ def gen_membership_op(rng, st):
         c, t = rng.choice(lc), rng.choice(lt)
         if st.members and rng.random() < 0.7:
             c, t = rng.choice(sorted(st.members))
+            # preferably an entry whose track is also in a crate below (removing it from the upper crate only)
+            shared = [(a, b) for a, b in sorted(st.members) if st.crates[a]["alive"] and any((d, b) in st.members for d in st.descendants(a))]
+            if shared and rng.random() < 0.4:
+                c, t = rng.choice(shared)
         st.members.discard((c, t))
         return {"op": "remove_track_from", "c": c, "t": t}, {"kind": "remove_track_from", "c": c, "t": t}
     if r < 0.86:
